@@ -240,6 +240,10 @@ type Target struct {
 	// VoidRet: for a function without results: the Gallina term a naked `return` (and falling off
 	// the end of the body) yields, e.g. the final value of a state variable.
 	VoidRet string
+	// NakedRetW (C10 dispatch targets): as NakedRet, but the term is passed through c.ret (result
+	// wrapping of the target), and for a whole-function target it is also what falling off the end
+	// of a result-less body stands for.
+	NakedRetW string
 }
 
 type fnctx struct {
@@ -528,6 +532,9 @@ func (c *fnctx) stmts(list []ast.Stmt, rest string) string {
 			}
 			if c.tg.NakedRet != "" {
 				return c.tg.NakedRet
+			}
+			if c.tg.NakedRetW != "" {
+				return c.ret(c.tg.NakedRetW)
 			}
 			failf("%s: naked return", c.t.pos(s))
 		}
@@ -904,7 +911,11 @@ func (t *translator) emitFunc(tg *Target, w *bytes.Buffer) {
 			body = tg.Pre + "\n  " + body
 		}
 	} else {
-		body = c.stmts(fd.Body.List, tg.VoidRet)
+		end := tg.VoidRet
+		if tg.NakedRetW != "" && fd.Type.Results == nil {
+			end = c.ret(tg.NakedRetW)
+		}
+		body = c.stmts(fd.Body.List, end)
 	}
 	p := t.fset.Position(fd.Pos())
 	e := t.fset.Position(fd.End())
@@ -926,6 +937,9 @@ func (t *translator) emitFunc(tg *Target, w *bytes.Buffer) {
 		if tg.NakedRet != "" {
 			fmt.Fprintf(w, "   return without results  =>  %s\n", tg.NakedRet)
 		}
+	}
+	if tg.NakedRet != "" {
+		fmt.Fprintf(w, "   a return without results (and the end of a body without results)  =>  %s\n", tg.NakedRet)
 	}
 	if kv != nil {
 		fmt.Fprintf(w, "   only the value of the composite-literal entry at line %d: %s\n", t.fset.Position(kv.Pos()).Line, t.src(kv))
